@@ -486,6 +486,17 @@ def run(rep, drv):
 				ok_ = False
 			if not ok_:
 				diff('predicates', '%s%r = %r, documented %r' % (fn_.__name__, args_, r_, want_), {}, None, None, True)
+		# "if x is None and default is provided, return num_nodes copies of default" -- whatever the default is (a default that is itself
+		# a list, tuple, dict, string or array is ONE value per node, not something to be spread over the nodes)
+		for dv in ([1, 2, 3], (0, 10), {'a': 1}, 'xy', np.array([1.0, 2.0]), [], 0, False, 2.5):
+			for nn in (0, 1, 2, 3):
+				r_ = call(H.ensure_list_for_nodes, None, nn, dv)
+				if not (isinstance(r_, list) and len(r_) == nn and all(e_ is dv for e_ in r_)):
+					diff('predicates', 'ensure_list_for_nodes(None, %d, default=%r) = %r, documented: %d copies of the default' % (nn, dv, r_, nn), {}, None, None, True)
+				idx_ = [7, -2, 11][:nn]
+				r_ = call(H.ensure_dict_for_nodes, None, idx_, dv)
+				if not (isinstance(r_, dict) and list(r_.keys()) == idx_ and all(e_ is dv for e_ in r_.values())):
+					diff('predicates', 'ensure_dict_for_nodes(None, %r, default=%r) = %r, documented: the default at every node index' % (idx_, dv, r_), {}, None, None, True)
 		for fn, truthy in ((H.is_list, [[1], []]), (H.is_set, [{1}, set()]), (H.is_dict, [{1: 2}, {}])):
 			for v in ([1], [], {1}, set(), {1: 2}, {}, (1, 2), 'ab', 5, None, np.array([1])):
 				w = any(type(v) is type(tv) for tv in truthy)
